@@ -46,3 +46,14 @@ func Dump(p *Program, substr string) {
 		}
 	}
 }
+
+// DumpInline prints what the inlining normal form did.
+func DumpInline(p *Program) {
+	for _, c := range p.Inline.Callees {
+		println("inlined:", c)
+	}
+
+	for _, c := range p.Inline.Skipped {
+		println("kept as call:", c)
+	}
+}
